@@ -324,6 +324,14 @@ func (c *FnVC) applyContract(x *ssa.Call, ct *Contract, f *ssa.Function, sig *ty
 		}
 		c.assume(imp(c.reach[b], t))
 	}
+	// after-call assertions of the caller's contract (state after the call, results nameable)
+	{
+		var rtys []types.Type
+		for i := 0; i < res.Len(); i++ {
+			rtys = append(rtys, res.At(i).Type())
+		}
+		c.afterAsserts(b, name, tag, args, atys, rv, rtys)
+	}
 	// recursion: decreases
 	if f == c.fn && c.ct != nil && c.ct.Decreases != nil {
 		cur := c.newEval(c.fn, c.paramEnv(), c.entry, nil)
